@@ -113,8 +113,10 @@ def run(ctx):
         if glob_mode:
             pass
         inc = [p for p in inc if not W.is_negative(p, flagv)]
-        exc = [p for p in exc if not W.is_negative(p, flagv) and not (not fs['EXTMATCH'] and False)]
         use_kw = rng.random() < 0.5 or not neg_on
+        if not use_kw:
+            exc = [p for p in exc if not W.is_negative(p, flagv)]
+        # (given through exclude=, a pattern that starts with the negation symbol is an ordinary pattern: NEGATE does not apply there)
         # how the user writes it
         groups = []     # list of pattern strings handed to the API; pieces grouped with | or {,}
         items = [(p, False) for p in inc] + ([] if use_kw else [(sym + q, True) for q in exc])
@@ -215,6 +217,30 @@ def run(ctx):
         if len(samples) < 4:
             samples.append({'written': written, 'exclude': kw.get('exclude'), 'flags': corr.flag_names(flagv)})
     ctx.counted('list call vs single-pattern decomposition', evals, len(nontriv), samples)
+    # exclude= patterns are ordinary patterns whatever they start with: the negation flags of the call do not apply to them
+    nex = 0
+    for q_ in ('!a', '-a', '!*a', '-*', '!(a)', '-(a|b)', '\\!a', '!', '-'):
+        for bits in range(8):
+            negf = (W.NEGATE if bits & 1 else 0) | (W.MINUSNEGATE if bits & 2 else 0) | (W.NEGATEALL if bits & 4 else 0)
+            for ext in (0, W.EXTMATCH):
+                for api_, star in ((Fm, '*'), (Gm, '**')):
+                    base_ = api_.FORCEUNIX | ext | (Gm.GLOBSTAR if api_ is Gm else 0)
+                    mt_ = Fm.fnmatch if api_ is Fm else Gm.globmatch
+                    for n_ in ('!a', '-a', 'a', 'b', '!xa', '-', '!', '!(a)', '-(a|b)', 'xa'):
+                        nex += 1
+                        try:
+                            got = [mt_(n_, star, flags=base_ | negf, exclude=q_), api_.compile(star, flags=base_ | negf, exclude=q_).match(n_),
+                                   bool((Fm.filter if api_ is Fm else Gm.globfilter)([n_], star, flags=base_ | negf, exclude=q_))]
+                            want = mt_(n_, star, flags=base_) and not mt_(n_, q_, flags=base_ | W.DOTMATCH)
+                        except Exception as e_:
+                            ctx.counterexample('%s(%r, %r, %s, exclude=%r) raised %s' % (mt_.__name__, n_, star, corr.flag_names(base_ | negf), q_, type(e_).__name__), {'name': n_, 'exclude': q_, 'flags': corr.flag_names(base_ | negf)})
+                            break
+                        if got != [want] * 3:
+                            ctx.counterexample('%s(%r, %r, %s, exclude=%r) = %r (compile, filter: %r) but the name %s the pattern %r read without the negation flags' % (
+                                mt_.__name__, n_, star, corr.flag_names(base_ | negf), q_, got[0], got[1:], 'matches' if not want else 'does not match', q_),
+                                {'name': n_, 'pattern': star, 'exclude': q_, 'flags': corr.flag_names(base_ | negf)})
+                            break
+    ctx.counted('exclude= patterns that start with a negation symbol', nex, nex // 2, [{'pattern': '*', 'exclude': '!a', 'flags': 'NEGATE'}])
     # SPLIT cuts at top-level `|` only: a `|` that is a member of a bracket expression - however the expression starts
     # (`]`, `!]`, `^]`, a POSIX class, an escape first) - never splits; an extended group that is never closed is no
     # group, so the `|` after its `(` do split (except inside a bracket expression of their own).  Patterns are built
